@@ -221,6 +221,8 @@ void ChannelMap::build(Plan const& p)
     // some maps compute the densities together with the coordinates and do nothing but return the
     // jacobian when asked for densities (the documented alternative)
     early = (mix2(p.mseed, 997) % 4 == 0);
+    sparse = (mix2(p.mseed, 998) % 3 == 0);
+    coord_ret = (mix2(p.mseed, 999) % 2 == 0) ? 0 : static_cast<int>(1 + mix2(p.mseed, 1000) % 3);
     for (std::uint64_t c = 1; restricted && c < chan; ++c)
     {
         std::uint64_t const h = mix2(p.mseed, 5000 + c);
@@ -332,6 +334,21 @@ std::vector<long double> make_user_grid(Plan const& p)
             else e = (mix2(p.gseed, 7000 * j + b) % 4 == 0) ? -static_cast<long double>(kmax) : 0.0L;
             w[b] = std::exp2(e);
             sum += w[b];
+        }
+        if (p.scn != "lattice" && p.bins >= 3 && mix2(p.gseed, 90 + j) % (p.scn == "grid" ? 2 : 5) == 0)
+        {
+            // empty bins (neighbouring boundaries coincide), as the library's own refinement produces
+            // them once many bins have collapsed into a narrow peak - a grid taken over from such a run
+            for (std::uint64_t b = 0; b != p.bins; ++b)
+            {
+                if (mix2(p.gseed, 9000 * (j + 1) + b) % 3 == 0 && sum - w[b] > 0)
+                {
+                    sum -= w[b];
+                    w[b] = 0;
+                }
+            }
+            sum = 0;
+            for (std::uint64_t b = 0; b != p.bins; ++b) sum += w[b];
         }
         long double acc = 0;
         g.push_back(0.0L);
